@@ -30,8 +30,8 @@ Fixpoint get_scheme (s : bytes) (i : nat) (acc : bytes) (all : bytes) : option (
 
 Fixpoint split_at (p : N -> bool) (s : bytes) (acc : bytes) : bytes * option bytes :=
   match s with
-  | [] => (rev acc, None)
-  | c :: r => if p c then (rev acc, Some r) else split_at p r (c :: acc)
+  | [] => (rev_append acc [], None)
+  | c :: r => if p c then (rev_append acc [], Some r) else split_at p r (c :: acc)
   end.
 
 (* every '%' is followed by two hex digits *)
